@@ -33,6 +33,8 @@ type Prog struct {
 	curProp   string
 	dynCache  map[*ssa.Function]bool
 	dynSet    map[*ssa.Function]bool
+	writers   map[string][]*ssa.Function
+	reachCache map[*ssa.Function]map[*ssa.Function]bool
 }
 
 func mathFloat64bits(f float64) uint64 { return math.Float64bits(f) }
